@@ -167,6 +167,14 @@ class RabbitMessageBroker(MessageBrokerT):
         payload: str,
         params: ParametersT | None,
     ) -> None:
+        if key.id_ not in self._id_to_delivery_tag:
+            # the message isn't in flight (anymore), e.g. its consumer has given it back:
+            # publishing the new version would leave two copies of the message
+            logger.error(
+                "Can't requeue unknown delivery tag for message ({routing_key}).",
+                extra={"routing_key": key},
+            )
+            return
         await self.ack(key)
         await self.enqueue(key, payload, params)
 
